@@ -86,11 +86,12 @@ SweepPrefix == << [a |-> "BeginBlock", dt |-> 1000],
                   TxFee(<<BRec("A1", 1)>>, [nund |-> 1]), TxFee(<<BRec("A1", 1)>>, [nund |-> 1]),
                   EndEv, ComEv, [a |-> "BeginBlock", dt |-> 1000] >>
 
+SmallCap == 2      \* export cap of the model (the code keeps the newest 20,000)
 PresetsQuick == << [feeReg |-> 4, feeRec |-> 1, feePur |-> 1, denom |-> "nund", def |-> 2, max |-> 2],
                    [feeReg |-> 4, feeRec |-> 1, feePur |-> 1, denom |-> "nund", def |-> 1, max |-> 1] >>
 PresetsFull == PresetsQuick \o << [feeReg |-> 5, feeRec |-> 2, feePur |-> 2, denom |-> "nund", def |-> 2, max |-> 4] >>
 
-Inv == C08State(st) /\ C07Hist(st) /\ NotHalted(st) /\ C04State(st) /\ C02StateModel(st) /\ StoredParamsValid(st)
+Inv == C08State(st) /\ C07Hist(st) /\ NotHalted(st) /\ C04State(st) /\ C02StateModel(st) /\ StoredParamsValid(st) /\ C15State(st)
 StepProps == [][ hist' # hist =>
                  LET ev == hist'[Len(hist')] IN
                  C07Step(st, st', ev) /\ C08Step(st, st', ev) /\ C09Step(st, st', ev) /\ C02Step(st, st', ev) ]_vars
